@@ -126,6 +126,7 @@ type image struct {
 	files    map[string][]byte // complete files at this instant
 	inflight map[string][]byte // files whose Persist has not returned (full intended content)
 	prev     map[string][]byte // Recover: what the file of an in-flight name held when its Persist began (absent: no entry)
+	junk     map[string][]byte // Recover: torn files left in the directory by an earlier crash
 }
 
 type rec struct {
@@ -189,6 +190,7 @@ type caseRun struct {
 
 	// Recover / Faults (recover.go, faults.go)
 	prev       map[string][]byte                       // previous content of the in-flight names
+	junk       map[string][]byte                       // torn leftovers of an earlier crash that are still in the directory
 	lastLoaded uint64                                  // epoch of the last snapshot loadSnapshots made the root
 	loadedAny  bool
 	wrapDir    func(index.Directory) index.Directory  // fault injector between the recording Directory and the file system
@@ -318,6 +320,10 @@ func (c *caseRun) recordLocked(op string) {
 			im.inflight[k] = v
 		}
 		if c.mode.Recover {
+			im.junk = map[string][]byte{}
+			for k, v := range c.junk {
+				im.junk[k] = v
+			}
 			im.prev = map[string][]byte{}
 			for k := range c.inflight {
 				if v, ok := c.prev[k]; ok {
@@ -535,6 +541,7 @@ func (d *recDir) Persist(kind string, id uint64, w index.WriterTo, closeCh chan 
 		} else {
 			delete(c.prev, name)
 		}
+		delete(c.junk, name)
 	}
 	if kind == index.ItemKindSnapshot {
 		var segs []uint64
@@ -599,6 +606,7 @@ func (d *recDir) Remove(kind string, id uint64) error {
 	name := fileName(kind, id)
 	if err == nil {
 		delete(c.files, name)
+		delete(c.junk, name)
 	}
 	held := 0
 	if kind == index.ItemKindSegment {
@@ -1249,7 +1257,7 @@ func (h *H) Exec(line string, out func(string, string), st *hlib.Stats, work str
 		c := &caseRun{mode: h.Mode, tier: os.Getenv("VERIF_TIER"), dir: filepath.Join(cw, "idx"), work: cw,
 			n: kvInt(f, "n", 1), unsafe: kvInt(f, "unsafe", 0) == 1, merge: kvInt(f, "merge", 2), jit: kvInt(f, "jit", 0),
 			rng: hlib.NewRand(uint64(kvInt(f, "seed", 1))), files: map[string][]byte{}, inflight: map[string][]byte{},
-			isFile: map[uint64]bool{}, epochK: map[uint64]int{}, introSem: make(chan struct{}, 1), tokC: map[int]int{}, prev: map[string][]byte{},
+			isFile: map[uint64]bool{}, epochK: map[uint64]int{}, introSem: make(chan struct{}, 1), tokC: map[int]int{}, prev: map[string][]byte{}, junk: map[string][]byte{},
 			acked: map[int]bool{}, readers: map[int]*index.Snapshot{}, imgEvery: 8}
 		h.cur = c
 		current = c
